@@ -39,14 +39,15 @@ def drop_copy(d):
 
 
 def apply_change(wt, ch):
-    if ch['kind'] == 'hand':
+    if ch['kind'] == 'hand' and 'patch' not in ch:
         path = os.path.join(wt, ch['file'])
         s = open(path).read()
         if s.count(ch['old']) != 1:
             return 'pattern occurs %d times' % s.count(ch['old'])
         open(path, 'w').write(s.replace(ch['old'], ch['new']))
         return None
-    p = subprocess.run(['git', '-C', wt, 'apply', ch['patch']], capture_output=True, text=True)
+    patch = ch['patch'] if os.path.isabs(ch['patch']) else os.path.join(VERIF, ch['patch'])
+    p = subprocess.run(['git', '-C', wt, 'apply', patch], capture_output=True, text=True)
     return p.stderr.strip() or None if p.returncode else None
 
 
